@@ -26,13 +26,15 @@ operations): the call must report the whole slice and the stream must contain by
 stream's bit order (so at byte-aligned offsets the memory image contains the slice verbatim, which is checked directly as well). Enumerated \
 completely: every slice length 0..=40 x every offset 0..=2W x every writer word x both endiannesses; plus proptest-generated longer slices (up \
 to 600 bytes) interleaved with bit operations. Reader cases: (reader configuration, image, history with io::Read calls): every buffer length \
-0..=40 x every offset 0..=2W+1 x every reader (buffered u8..u64, unbuffered) x backends, enumerated completely, plus random histories; the bytes \
+0..=40 x every offset 0..=2W+1 x {plain, after a look-ahead refill, data ending right after the requested bytes} x every reader (buffered \
+u8..u64, unbuffered) x backends, enumerated completely, plus random histories; the bytes \
 obtained must be the next 8*len stream bits grouped in stream order and the count must be the buffer length. Oracle: bit model. Non-trivial: \
 length not a multiple of 8 or of the word size, or offset not a multiple of 8, or length >= word size for a word other than u64; distinct = \
 distinct case hashes.",
     assumptions: &["bit model", "io::Read on a strict backend that runs out of data is C09's subject; here reads stay within the data or the backend is zero-extended"],
     run,
     replay,
+    from_bytes: None,
 };
 
 fn pre_ops(off: usize, salt: u64) -> Vec<WOp> {
@@ -148,22 +150,32 @@ fn run(ctx: &Ctx, env: &Env) -> Stats {
                     let bits = (2 * w + 2 + 41 * 8 + 128) as u32;
                     for len in 0..=40u16 {
                         for off in 0..=(2 * w + 1) {
-                            let mut ops = vec![];
-                            let mut left = off;
-                            while left > 0 {
-                                let c = left.min(64);
-                                ops.push(ROp::Bits(c as u8));
-                                left -= c;
+                            // variant 0: plain; 1: after a look-ahead refill (more than the needed bits buffered);
+                            // 2: the data ends right after the bytes requested (no bit beyond them may be needed)
+                            for variant in 0..3 {
+                                let mut ops = vec![];
+                                let mut left = off;
+                                while left > 0 {
+                                    let c = left.min(64);
+                                    ops.push(ROp::Bits(c as u8));
+                                    left -= c;
+                                }
+                                if variant == 1 {
+                                    ops.push(ROp::Peek(r.peek_max() as u8));
+                                }
+                                ops.push(ROp::IoRead(len));
+                                let seed = (len as u64) << 16 | off as u64 ^ ctx.seed;
+                                if variant == 2 {
+                                    let need = off + 8 * len as usize;
+                                    let img = Img::Pattern { pat: Pat::Random, bits: need as u32, seed, zero_from: None, one_at: None };
+                                    part.check(&Case::Read(RCase { cfg, img, cut_words: None, ops: with_pos(ops), free: false }), &f);
+                                } else {
+                                    ops.push(ROp::Bits(11));
+                                    ops.push(ROp::IoRead(3));
+                                    let img = Img::Pattern { pat: Pat::Random, bits, seed, zero_from: None, one_at: None };
+                                    part.check(&Case::Read(RCase { cfg, img, cut_words: None, ops: with_pos(ops), free: false }), &f);
+                                }
                             }
-                            // reach the offset by a peek-refilled buffer every other time
-                            if off % 2 == 1 {
-                                ops.push(ROp::Peek(r.peek_max() as u8));
-                            }
-                            ops.push(ROp::IoRead(len));
-                            ops.push(ROp::Bits(11));
-                            ops.push(ROp::IoRead(3));
-                            let img = Img::Pattern { pat: Pat::Random, bits, seed: (len as u64) << 16 | off as u64 ^ ctx.seed, zero_from: None, one_at: None };
-                            part.check(&Case::Read(RCase { cfg, img, cut_words: None, ops: with_pos(ops) }), &f);
                         }
                     }
                     part.finish()
@@ -171,7 +183,7 @@ fn run(ctx: &Ctx, env: &Env) -> Stats {
             }
         }
     }
-    let n_rand = ctx.t(8_000u64, 300_000);
+    let n_rand = ctx.t(20_000u64, 600_000);
     for j in 0..8 {
         jobs.push(Box::new(move |ctx: &Ctx| {
             let mut part = Part::new(ctx, format!("random/write/{}", j), "proptest byte strings decoded into (writer cfg, offset, slice up to 600 bytes, following operations)", false);
@@ -228,7 +240,7 @@ pub fn gen_read(s: &mut Src) -> Case {
             }
         })
         .collect();
-    Case::Read(RCase { cfg, img: Img::Pattern { pat: gen_pat(s), bits, seed: s.u16() as u64, zero_from: None, one_at: None }, cut_words: None, ops: with_pos(ops) })
+    Case::Read(RCase { cfg, img: Img::Pattern { pat: gen_pat(s), bits, seed: s.u16() as u64, zero_from: None, one_at: None }, cut_words: None, ops: with_pos(ops), free: false })
 }
 
 fn replay(v: &serde_json::Value, env: &Env) -> CheckResult {
